@@ -94,7 +94,8 @@ Inductive op :=
 | OBind (l : nat)
 | OAbsRef (l : nat) (size : Z) (addend : Z) (pre post : list Z)
 | ODelta (l b : nat) (size : Z)
-| OResolve (offs : list Z).
+| OResolve (offs : list Z)
+| ODeltaChecked (l b : nat) (size : Z).   (* embed_label_delta after fixes/C03-label-delta-range.patch: the immediate path checks the range *)
 
 (* ---- helpers ---- *)
 Fixpoint upd {A} (l : list A) (i : nat) (v : A) : list A :=
@@ -291,6 +292,29 @@ Definition step (s : state) (o : op) : state * err :=
   | OResolve offs =>
     let w := resolve_list (resolve_sel (labels s) offs) false (pending s) (refs s) in
     (set_fix s (w_refs w) (w_kept w) (unresolved s - w_n w), if w_err w then EInvalidDisp else EOk)
+  | ODeltaChecked l b size =>
+    match nth_error (labels s) l, nth_error (labels s) b with
+    | Some ll, Some lb =>
+      if negb (size_ok size) then (s, EInvalidSize) else
+      let immediate :=
+        match ll, lb with
+        | Some (ls, lo), Some (bs, bo) => if Nat.eqb ls bs then Some (lo - bo) else None
+        | _, _ => None
+        end in
+      match immediate with
+      | Some d =>
+        (* is_encodable_offset_64(delta, 8 * size) unless size = 8: same signed range as the expression relocation *)
+        if (size =? 8) || ((- 2 ^ (8 * size - 1) <=? d) && (d <? 2 ^ (8 * size - 1)))
+        then (append_cur s [IRaw (le_split (Z.to_nat size) (wrap (8 * size) d))] size, EOk)
+        else (s, EInvalidDisp)
+      | None =>
+        let re := {| rl_type := Expr l b; rl_sec := cur s; rl_off := s_len (cur_sec s); rl_lead := 0; rl_size := size;
+                     rl_trail := 0; rl_payload := 0; rl_target := None; rl_label := l; rl_addend := 0 |} in
+        let s1 := append_cur s [IRaw (zeros size)] size in
+        (set_rel s1 (pending_rel s) (unresolved s) (relocs s ++ [re]), EOk)
+      end
+    | _, _ => (s, EInvalidLabel)
+    end
   end.
 
 Fixpoint run (s : state) (ops : list op) : state :=
